@@ -195,7 +195,9 @@ def make_scsi_device(prog):
     cls = prog.cls("pyscsi.pyscsi.scsi_device", "SCSIDevice")
     dev = Instance(cls)
     dev.attrs.update({"_file_name": SymStr("devname"), "_read_write": False, "_file": External("file-handle@%d" % _next_id()),
-                      "_ino": External("recorded-ino"), "_detect_replugged": False, "_buffering": -1})
+                      "_ino": External("recorded-ino"), "_detect_replugged": False, "_buffering": -1,
+                      # whatever an earlier attach stored on the device (any peripheral device type)
+                      "_devicetype": Sym.param("devicetype", 5)})
     return dev
 
 
@@ -203,7 +205,7 @@ def make_iscsi_device(prog):
     cls = prog.cls("pyscsi.pyiscsi.iscsi_device", "ISCSIDevice")
     dev = Instance(cls)
     dev.attrs.update({"_file_name": SymStr("url"), "_iscsi": External("ctx"), "_iscsi_url": External("url"),
-                      "_initiator_name": SymStr("iname")})
+                      "_initiator_name": SymStr("iname"), "_devicetype": Sym.param("devicetype", 5)})
     return dev
 
 
